@@ -138,6 +138,10 @@ func (cb *CanonicalBlock) UnmarshalCbor(r io.Reader) error {
 
 	if crcT, err := cboring.ReadUInt(r); err != nil {
 		return err
+	} else if _, err := emptyCRC(CRCType(crcT)); err != nil {
+		return err
+	} else if hasCrc := blockLen == 6; hasCrc != (CRCType(crcT) != CRCNo) {
+		return fmt.Errorf("array of %d elements does not match CRC type %d", blockLen, crcT)
 	} else {
 		cb.CRCType = CRCType(crcT)
 	}
